@@ -8,6 +8,21 @@ use std::sync::{Mutex, MutexGuard};
 
 pub(crate) type Internal<T> = Arc<Mutex<ChannelInternal<T>>>;
 
+/// Mirrors the exact content of the wait list to the simulator when a
+/// `ChannelInternal` method returns.
+#[cfg(kanal_verif)]
+struct VerifWaitList<T>(*const ChannelInternal<T>);
+#[cfg(kanal_verif)]
+impl<T> Drop for VerifWaitList<T> {
+    fn drop(&mut self) {
+        let ch = unsafe { &*self.0 };
+        crate::verif::rt::wl_set(
+            self.0 as usize,
+            &mut ch.wait_list.iter().map(|s| s.verif_addr()),
+        );
+    }
+}
+
 /// Acquire mutex guard on channel internal for use in channel operations
 #[inline(always)]
 pub(crate) fn acquire_internal<T>(internal: &'_ Internal<T>) -> MutexGuard<'_, ChannelInternal<T>> {
@@ -23,6 +38,14 @@ pub(crate) fn acquire_internal<T>(internal: &'_ Internal<T>) -> MutexGuard<'_, C
 pub(crate) fn try_acquire_internal<T>(
     internal: &'_ Internal<T>,
 ) -> Option<MutexGuard<'_, ChannelInternal<T>>> {
+    #[cfg(all(kanal_verif, not(feature = "std-mutex")))]
+    {
+        let guard = internal.try_lock();
+        if guard.is_some() {
+            crate::verif::rt::cs_enter(unsafe { internal.raw() } as *const _ as usize);
+        }
+        return guard;
+    }
     #[cfg(not(feature = "std-mutex"))]
     return internal.try_lock();
     #[cfg(feature = "std-mutex")]
@@ -78,6 +101,14 @@ impl<T> ChannelInternal<T> {
     /// Terminates remainings signals in the queue to notify listeners about the
     /// closing of the channel
     pub(crate) fn terminate_signals(&mut self) {
+        #[cfg(kanal_verif)]
+        let _verif_wl = VerifWaitList(self as *const Self);
+        #[cfg(kanal_verif)]
+        {
+            if !self.wait_list.is_empty() {
+                crate::verif::rt::probe(crate::verif::rt::probe::TERMINATE_SIGNALS);
+            }
+        }
         for t in self.wait_list.iter() {
             // Safety: it's safe to terminate owned signal once
             unsafe { t.terminate() }
@@ -88,6 +119,8 @@ impl<T> ChannelInternal<T> {
     /// Returns next signal for sender from the waitlist
     #[inline(always)]
     pub(crate) fn next_send(&mut self) -> Option<SignalTerminator<T>> {
+        #[cfg(kanal_verif)]
+        let _verif_wl = VerifWaitList(self as *const Self);
         if self.recv_blocking {
             return None;
         }
@@ -103,12 +136,18 @@ impl<T> ChannelInternal<T> {
     /// Adds new sender signal to the waitlist
     #[inline(always)]
     pub(crate) fn push_send(&mut self, s: SignalTerminator<T>) {
+        #[cfg(kanal_verif)]
+        let _verif_wl = VerifWaitList(self as *const Self);
+        #[cfg(kanal_verif)]
+        crate::verif::rt::probe(crate::verif::rt::probe::PUSH_SEND);
         self.wait_list.push_back(s);
     }
 
     /// Returns the next signal for the receiver in the waitlist
     #[inline(always)]
     pub(crate) fn next_recv(&mut self) -> Option<SignalTerminator<T>> {
+        #[cfg(kanal_verif)]
+        let _verif_wl = VerifWaitList(self as *const Self);
         if !self.recv_blocking {
             return None;
         }
@@ -124,12 +163,18 @@ impl<T> ChannelInternal<T> {
     /// Adds new receiver signal to the waitlist
     #[inline(always)]
     pub(crate) fn push_recv(&mut self, s: SignalTerminator<T>) {
+        #[cfg(kanal_verif)]
+        let _verif_wl = VerifWaitList(self as *const Self);
+        #[cfg(kanal_verif)]
+        crate::verif::rt::probe(crate::verif::rt::probe::PUSH_RECV);
         self.wait_list.push_back(s);
     }
 
     /// Tries to remove the send signal from the waitlist, returns true if the
     /// operation was successful
     pub(crate) fn cancel_send_signal(&mut self, sig: &Signal<T>) -> bool {
+        #[cfg(kanal_verif)]
+        let _verif_wl = VerifWaitList(self as *const Self);
         if !self.recv_blocking {
             for (i, send) in self.wait_list.iter().enumerate() {
                 if send.eq(sig) {
@@ -144,6 +189,8 @@ impl<T> ChannelInternal<T> {
     /// Tries to remove the received signal from the waitlist, returns true if
     /// the operation was successful
     pub(crate) fn cancel_recv_signal(&mut self, sig: &Signal<T>) -> bool {
+        #[cfg(kanal_verif)]
+        let _verif_wl = VerifWaitList(self as *const Self);
         if self.recv_blocking {
             for (i, recv) in self.wait_list.iter().enumerate() {
                 if recv.eq(sig) {
